@@ -227,13 +227,21 @@ func (am *AccountingManager) Stop() error {
 	am.logger.Info("Stopping accounting manager")
 
 	// Drain sessions if configured
+	var drained []string
 	if am.config.DrainOnShutdown {
-		am.drainAllSessions()
+		drained = am.drainAllSessions()
 	}
 
 	// Persist pending records before shutdown
 	if err := am.persistPendingRecords(); err != nil {
 		am.logger.Warn("Failed to persist pending records", zap.Error(err))
+	} else {
+		// The Stop of every drained session has been delivered or is in the
+		// persisted queue. Its session file must go now, or the next start
+		// takes the session for an orphan and sends a second Stop.
+		for _, id := range drained {
+			am.removePersistedSession(id)
+		}
 	}
 
 	// Cancel context and wait for workers
@@ -653,8 +661,9 @@ func (am *AccountingManager) retryPendingRecords() {
 	}
 }
 
-// drainAllSessions sends Accounting-Stop for all active sessions
-func (am *AccountingManager) drainAllSessions() {
+// drainAllSessions sends Accounting-Stop for all active sessions. It returns
+// the IDs of the drained sessions, or nil if the shutdown timeout cut it short.
+func (am *AccountingManager) drainAllSessions() []string {
 	am.logger.Info("Draining all sessions for shutdown")
 
 	am.sessionsMu.RLock()
@@ -687,10 +696,16 @@ func (am *AccountingManager) drainAllSessions() {
 	select {
 	case <-done:
 		am.logger.Info("All sessions drained successfully", zap.Int("count", len(sessions)))
+		ids := make([]string, 0, len(sessions))
+		for _, s := range sessions {
+			ids = append(ids, s.SessionID)
+		}
+		return ids
 	case <-ctx.Done():
 		am.logger.Warn("Shutdown timeout reached, some sessions may not have sent Accounting-Stop",
 			zap.Int("total", len(sessions)),
 		)
+		return nil
 	}
 }
 
